@@ -9,7 +9,7 @@
    Python runtime (module-level or class-level attributes, mutable default arguments),
    program passed as text vs. as a file path, drawing side effects, identifier mode,
    attached observers. *)
-From PFDL Require Import RefSem RunCase Monitors RefC18.
+From PFDL Require Import RefSem RunCase Monitors RefC18 RefObs.
 
 Theorem C18_two_schedulers_independent_partial :
   forall orcA orcB immA immB bodyA bodyB fuel cs sA sB tr,
@@ -18,3 +18,182 @@ Theorem C18_two_schedulers_independent_partial :
     run_script orcB immB fuel bodyB sB (proj_calls false cs) = Ok (proj_recs false tr).
 Proof. exact two_schedulers_independent. Qed.
 Print Assumptions C18_two_schedulers_independent_partial.
+
+(* ==== observers and additional listeners do not influence the order (RefObs.v) ==== *)
+(* ---- two-run simulation of the seven interpreter functions, up to observers ---- *)
+Theorem C18_start_stmt_obs :
+  forall orc imm f ctx ie s g1 g2,
+    obs_eq g1 g2 -> res_rel (start_stmt orc imm f ctx ie s g1) (start_stmt orc imm f ctx ie s g2).
+Proof. exact start_stmt_obs. Qed.
+Print Assumptions C18_start_stmt_obs.
+
+Theorem C18_run_block_obs :
+  forall orc imm f ctx ie ss i g1 g2,
+    obs_eq g1 g2 -> res_rel (run_block orc imm f ctx ie ss i g1) (run_block orc imm f ctx ie ss i g2).
+Proof. exact run_block_obs. Qed.
+Print Assumptions C18_run_block_obs.
+
+Theorem C18_start_list_obs :
+  forall orc imm f ctx l g1 g2,
+    obs_eq g1 g2 -> res_rel (start_list orc imm f ctx l g1) (start_list orc imm f ctx l g2).
+Proof. exact start_list_obs. Qed.
+Print Assumptions C18_start_list_obs.
+
+Theorem C18_loop_test_obs :
+  forall orc imm f ctx ie s k g1 g2,
+    obs_eq g1 g2 -> res_rel (loop_test orc imm f ctx ie s k g1) (loop_test orc imm f ctx ie s k g2).
+Proof. exact loop_test_obs. Qed.
+Print Assumptions C18_loop_test_obs.
+
+Theorem C18_deliver_obs :
+  forall orc imm f ctx ie s st id g1 g2,
+    obs_eq g1 g2 ->
+    res_rel (deliver orc imm f ctx ie s st id g1) (deliver orc imm f ctx ie s st id g2).
+Proof. exact deliver_obs. Qed.
+Print Assumptions C18_deliver_obs.
+
+Theorem C18_deliver_block_obs :
+  forall orc imm f ctx ie ss i sti id g1 g2,
+    obs_eq g1 g2 ->
+    res_rel (deliver_block orc imm f ctx ie ss i sti id g1) (deliver_block orc imm f ctx ie ss i sti id g2).
+Proof. exact deliver_block_obs. Qed.
+Print Assumptions C18_deliver_block_obs.
+
+Theorem C18_deliver_list_obs :
+  forall orc imm f ctx l sts id g1 g2,
+    obs_eq g1 g2 ->
+    res_rel (deliver_list orc imm f ctx l sts id g1) (deliver_list orc imm f ctx l sts id g2).
+Proof. exact deliver_list_obs. Qed.
+Print Assumptions C18_deliver_list_obs.
+
+(* ---- whole histories: erasing attach / detach ---- *)
+Theorem C18_observers_do_not_influence :
+  forall orc imm body fuel cs tr,
+    run_script orc imm fuel body sched0 cs = Ok tr ->
+    run_script orc imm fuel body sched0 (erase_obs_calls cs) = Ok (erase_obs_recs cs tr).
+Proof. exact observers_do_not_influence. Qed.
+Print Assumptions C18_observers_do_not_influence.
+
+Theorem C18_observers_do_not_influence_from :
+  forall orc imm body fuel cs s1 s2 tr,
+    sc_root s1 = sc_root s2 -> obs_eq (sc_g s1) (sc_g s2) -> g_obs (sc_g s2) = [] ->
+    run_script orc imm fuel body s1 cs = Ok tr ->
+    run_script orc imm fuel body s2 (erase_obs_calls cs) = Ok (erase_obs_recs cs tr).
+Proof. exact observers_do_not_influence_from. Qed.
+Print Assumptions C18_observers_do_not_influence_from.
+
+Theorem C18_same_up_to_observers :
+  forall orc imm body fuel cs1 cs2 tr1 tr2,
+    erase_obs_calls cs1 = erase_obs_calls cs2 ->
+    run_script orc imm fuel body sched0 cs1 = Ok tr1 ->
+    run_script orc imm fuel body sched0 cs2 = Ok tr2 ->
+    erase_obs_recs cs1 tr1 = erase_obs_recs cs2 tr2.
+Proof. exact same_up_to_observers. Qed.
+Print Assumptions C18_same_up_to_observers.
+
+Theorem C18_erased_trace_has_no_observer_entries :
+  forall cs tr, Forall (fun r => strip (cr_log r) = cr_log r) (erase_obs_recs cs tr).
+Proof. exact erase_obs_recs_clean. Qed.
+Print Assumptions C18_erased_trace_has_no_observer_entries.
+
+(* ---- additional registered functions ---- *)
+Theorem C18_start_stmt_lst :
+  forall orc imm f ctx ie s g1 g2,
+    lst_eq g1 g2 -> res_rel_l (start_stmt orc imm f ctx ie s g1) (start_stmt orc imm f ctx ie s g2).
+Proof. exact start_stmt_lst. Qed.
+Print Assumptions C18_start_stmt_lst.
+
+Theorem C18_deliver_block_lst :
+  forall orc imm f ctx ie ss i sti id g1 g2,
+    lst_eq g1 g2 ->
+    res_rel_l (deliver_block orc imm f ctx ie ss i sti id g1) (deliver_block orc imm f ctx ie ss i sti id g2).
+Proof. exact deliver_block_lst. Qed.
+Print Assumptions C18_deliver_block_lst.
+
+Theorem C18_extra_listeners_do_not_influence :
+  forall orc imm body fuel cs tr,
+    run_script orc imm fuel body sched0 cs = Ok tr ->
+    run_script orc imm fuel body sched0 (erase_reg_calls cs) = Ok (erase_reg_recs cs tr).
+Proof. exact extra_listeners_do_not_influence. Qed.
+Print Assumptions C18_extra_listeners_do_not_influence.
+
+Theorem C18_extra_listeners_do_not_influence_from :
+  forall orc imm body fuel cs s1 s2 tr,
+    sc_root s1 = sc_root s2 -> lst_eq (sc_g s1) (sc_g s2) -> only0 (g_ls (sc_g s2)) ->
+    run_script orc imm fuel body s1 cs = Ok tr ->
+    run_script orc imm fuel body s2 (erase_reg_calls cs) = Ok (erase_reg_recs cs tr).
+Proof. exact extra_listeners_do_not_influence_from. Qed.
+Print Assumptions C18_extra_listeners_do_not_influence_from.
+
+Theorem C18_same_up_to_extra_listeners :
+  forall orc imm body fuel cs1 cs2 tr1 tr2,
+    erase_reg_calls cs1 = erase_reg_calls cs2 ->
+    run_script orc imm fuel body sched0 cs1 = Ok tr1 ->
+    run_script orc imm fuel body sched0 cs2 = Ok tr2 ->
+    erase_reg_recs cs1 tr1 = erase_reg_recs cs2 tr2.
+Proof. exact same_up_to_extra_listeners. Qed.
+Print Assumptions C18_same_up_to_extra_listeners.
+
+Theorem C18_function0_view_independent :
+  forall orc imm body fuel cs tr,
+    run_script orc imm fuel body sched0 cs = Ok tr ->
+    run_script orc imm fuel body sched0 (erase_reg_calls (erase_obs_calls cs))
+    = Ok (erase_reg_recs (erase_obs_calls cs) (erase_obs_recs cs tr)).
+Proof. exact function0_view_independent. Qed.
+Print Assumptions C18_function0_view_independent.
+
+Theorem C18_run_block_lst :
+  forall orc imm f ctx ie ss i g1 g2,
+    lst_eq g1 g2 -> res_rel_l (run_block orc imm f ctx ie ss i g1) (run_block orc imm f ctx ie ss i g2).
+Proof. exact run_block_lst. Qed.
+Print Assumptions C18_run_block_lst.
+
+Theorem C18_start_list_lst :
+  forall orc imm f ctx l g1 g2,
+    lst_eq g1 g2 -> res_rel_l (start_list orc imm f ctx l g1) (start_list orc imm f ctx l g2).
+Proof. exact start_list_lst. Qed.
+Print Assumptions C18_start_list_lst.
+
+Theorem C18_loop_test_lst :
+  forall orc imm f ctx ie s k g1 g2,
+    lst_eq g1 g2 -> res_rel_l (loop_test orc imm f ctx ie s k g1) (loop_test orc imm f ctx ie s k g2).
+Proof. exact loop_test_lst. Qed.
+Print Assumptions C18_loop_test_lst.
+
+Theorem C18_deliver_lst :
+  forall orc imm f ctx ie s st id g1 g2,
+    lst_eq g1 g2 ->
+    res_rel_l (deliver orc imm f ctx ie s st id g1) (deliver orc imm f ctx ie s st id g2).
+Proof. exact deliver_lst. Qed.
+Print Assumptions C18_deliver_lst.
+
+Theorem C18_deliver_list_lst :
+  forall orc imm f ctx l sts id g1 g2,
+    lst_eq g1 g2 ->
+    res_rel_l (deliver_list orc imm f ctx l sts id g1) (deliver_list orc imm f ctx l sts id g2).
+Proof. exact deliver_list_lst. Qed.
+Print Assumptions C18_deliver_list_lst.
+
+(* ---- all outcomes (success, out of fuel, exception, unsupported) ---- *)
+Theorem C18_observers_do_not_influence_total :
+  forall orc imm body fuel cs,
+    detach_ok [] cs ->
+    run_script orc imm fuel body sched0 (erase_obs_calls cs)
+    = res_map (erase_obs_recs cs) (run_script orc imm fuel body sched0 cs).
+Proof. exact observers_do_not_influence_total. Qed.
+Print Assumptions C18_observers_do_not_influence_total.
+
+Theorem C18_observers_cannot_break :
+  forall orc imm body fuel cs tr',
+    detach_ok [] cs ->
+    run_script orc imm fuel body sched0 (erase_obs_calls cs) = Ok tr' ->
+    exists tr, run_script orc imm fuel body sched0 cs = Ok tr /\ tr' = erase_obs_recs cs tr.
+Proof. exact observers_cannot_break. Qed.
+Print Assumptions C18_observers_cannot_break.
+
+Theorem C18_extra_listeners_do_not_influence_total :
+  forall orc imm body fuel cs,
+    run_script orc imm fuel body sched0 (erase_reg_calls cs)
+    = res_map (erase_reg_recs cs) (run_script orc imm fuel body sched0 cs).
+Proof. exact extra_listeners_do_not_influence_total. Qed.
+Print Assumptions C18_extra_listeners_do_not_influence_total.
